@@ -24,6 +24,12 @@ pub struct Engine {
     pub assumptions: &'static [&'static str],
     pub real_vs_stub: &'static str,
     pub required_probes: &'static [&'static str],
+    /// one-time initialisation (e.g. flag discovery from the binary under test)
+    pub init: Option<fn(&Ctx) -> HResult<()>>,
+    /// counter that holds the number of judged executions when one run contains many
+    pub eval_counter: Option<&'static str>,
+    /// a scenario is split over this many consecutive runs (enumerated cases are dealt round-robin)
+    pub shards: u64,
 }
 
 pub fn engines() -> Vec<Engine> {
@@ -50,6 +56,31 @@ pub fn engines() -> Vec<Engine> {
             "probe.child_older_than_parent", "probe.expect_no_version", "probe.unborn_head", "probe.several_nearest_commits",
             "probe.invalid_tag_nearer_than_base", "probe.merge_inside_distance", "probe.answer_not_unique",
         ],
+        init: None,
+        eval_counter: None,
+        shards: 1,
+    },
+    Engine {
+        id: "C13",
+        level: "fault_enumeration",
+        generate: crate::c13::generate,
+        execute: crate::c13::execute,
+        shrink: crate::c13::shrink,
+        runs_quick: 96,
+        runs_thorough: 4800,
+        cap_thorough_secs: 1500,
+        rule: "one evaluation = one zerv child process judged by the clean-failure oracle; per scenario (seeded world state x command) the fault-free run is traced and then EVERY git invocation k x EVERY proxy fault kind is executed (enumerated, not sampled), plus whole-run git faults, 2-3 fault sequences, storage corruptions (target x manner), stdin / cwd / non-UTF-8 argv faults, interleaved repository mutations at every invocation index (thorough) and a seeded adversarial argv workload drawn from the flag set the binary itself reports; distinct = distinct (git sub-command, invocation index, fault kind, zerv sub-command, outcome class) tuples whose fault actually fired according to the proxy trace, plus distinct storage / stdin / cwd / whole-run / mutation placements",
+        assumptions: &[
+            "scenarios, argument vectors and multi-fault sequences are sampled; only `each git invocation x each fault kind` per scenario is enumerated",
+            "a success with degraded facts under an injected fault (zerv deliberately swallows some git failures) is not a violation of C13 and is only counted",
+            "wall clocks outside [0, 2^32) are out of contract for `flow` and are not used for verdicts",
+            "children are started with RLIMIT_AS = 8 GiB so that a runaway allocation aborts quickly (an abort is a violation)",
+        ],
+        real_vs_stub: "real: zerv binary built from /repo's working tree, /usr/bin/git behind the proxy (pass-through unless a fault is planned; storage faults are produced by the real git reading damaged files), kernel pipes, tmpfs; simulated: git failures / garbage / torn output / signals at a chosen invocation index, PATH contents, stdin transport, cwd, wall clock, concurrent repository mutations placed at an exact invocation index",
+        required_probes: &["probe.rust_log_effective"],
+        init: Some(crate::argvgen::init),
+        eval_counter: Some("children"),
+        shards: 4,
     }]
 }
 
@@ -75,8 +106,13 @@ struct RunResult {
 }
 
 fn run_one(ctx: &Ctx, eng: &Engine, idx: u64) -> RunResult {
-    let mut rng = Rng::for_run(ctx.seed, eng.id, idx);
-    let scenario = (eng.generate)(&mut rng, ctx.tier);
+    let mut rng = Rng::for_run(ctx.seed, eng.id, idx / eng.shards);
+    let mut scenario = (eng.generate)(&mut rng, ctx.tier);
+    if eng.shards > 1 {
+        if let Some(o) = scenario.as_object_mut() {
+            o.insert("shard".into(), json!([idx % eng.shards, eng.shards]));
+        }
+    }
     exec_scenario(ctx, eng, &scenario, &format!("r{idx}"))
 }
 
@@ -208,6 +244,12 @@ pub fn run(ctx: &Ctx, id: &str, opts: &Opts) -> i32 {
             return 2;
         }
     };
+    if let Some(init) = eng.init {
+        if let Err(e) = init(ctx) {
+            println!("HARNESS-ERROR: {}", e.0);
+            return 2;
+        }
+    }
     let n = opts.runs.unwrap_or(if ctx.tier == Tier::Quick { eng.runs_quick } else { eng.runs_thorough });
     let cap = opts.cap_secs.unwrap_or(if ctx.tier == Tier::Quick { 3600 } else { eng.cap_thorough_secs });
     let workers = opts.workers.unwrap_or_else(|| std::thread::available_parallelism().map(|x| x.get()).unwrap_or(4).min(16));
@@ -280,6 +322,12 @@ pub fn run(ctx: &Ctx, id: &str, opts: &Opts) -> i32 {
             continue;
         }
         seen_sig.push(sig.clone());
+        let mut sc = sc;
+        if let Some(nar) = &v.narrow {
+            if let Some(o) = sc.as_object_mut() {
+                o.insert("only".into(), json!(nar));
+            }
+        }
         let (msc, mv, steps) = if budget > 0 { minimise(ctx, &eng, &sc, &sig, &mut budget) } else { (sc.clone(), v.clone(), 0) };
         if let Some(f) = findings::matching(&known, &mv, &msc) {
             if !known_seen.iter().any(|(k, _)| k == &f.id) {
@@ -367,7 +415,8 @@ fn evidence(ctx: &Ctx, eng: &Engine, st: &Stats, done: u64, scheduled: u64, wall
         "seed": ctx.seed as i64,
         "level": eng.level,
         "coverage": {
-            "evaluations": done,
+            "evaluations": eng.eval_counter.and_then(|c| st.counters.get(c).copied()).unwrap_or(done),
+            "simulated_runs": done,
             "distinct_nontrivial": st.distinct.len(),
             "rule": eng.rule,
             "samples": st.samples,
@@ -415,6 +464,12 @@ pub fn replay(ctx: &mut Ctx, path: &Path) -> i32 {
         println!("HARNESS-ERROR: no engine for property {id:?}");
         return 2;
     };
+    if let Some(init) = eng.init {
+        if let Err(e) = init(ctx) {
+            println!("HARNESS-ERROR: {}", e.0);
+            return 2;
+        }
+    }
     ctx.tier = if doc["tier"].as_str() == Some("thorough") { Tier::Thorough } else { Tier::Quick };
     ctx.seed = doc["seed"].as_u64().unwrap_or(1);
     let want = doc["signature"].as_str().unwrap_or("").to_string();
